@@ -271,6 +271,23 @@ def mk_algo(bt, a, spec, frames):
     raise ValueError("unknown algo %r" % (name,))
 
 
+_runsec_cls = {}
+
+
+def runnable_security_class(bt):
+    """a user-defined security whose run() does something (here: reports to the harness)"""
+    if id(bt) not in _runsec_cls:
+
+        class RunnableSecurity(bt.core.Security):
+            def run(self):
+                cb = Probe.registry.get("secrun")
+                if cb is not None:
+                    cb(self)
+
+        _runsec_cls[id(bt)] = RunnableSecurity
+    return _runsec_cls[id(bt)]
+
+
 # --------------------------------------------------------------------------- trees
 SEC_KINDS = ("Security", "SecurityBase", "FixedIncomeSecurity", "CouponPayingSecurity", "HedgeSecurity", "CouponPayingHedgeSecurity")
 
@@ -281,7 +298,7 @@ def mk_node(bt, n, spec, frames):
     if isinstance(n, str):
         return n
     if "sec" in n:
-        cls = getattr(bt.core, n.get("kind", "Security"))
+        cls = runnable_security_class(bt) if n.get("kind") == "RunnableSecurity" else getattr(bt.core, n.get("kind", "Security"))
         kw = {}
         if n.get("mult", 1) != 1:
             kw["multiplier"] = n["mult"]
@@ -294,7 +311,7 @@ def mk_node(bt, n, spec, frames):
     kids = n.get("children")
     children = None
     if kids is not None:
-        built = [mk_node(bt, c, spec, frames) for c in kids]
+        built = [mk_node(bt, c, spec, frames) for c in kids if not (isinstance(c, dict) and c.get("spawn"))]  # 'spawn': created mid-run by the harness
         if n.get("children_dict"):
             children = {}
             for c in built:
